@@ -482,6 +482,7 @@ package secretstore
 //@   loop 0 invariant bytes(chainKeyValue) == ckiter(bytes(deviceChainKey.ChainKey), pkv(groupPublicKey), i)
 //@   loop 0 invariant knownDeviceChainKey != nil ==> old(dsh(s.datastore))[k_ck(pkv(groupPublicKey), pkv(devicePublicKey))]
 //@   loop 0 invariant bytes(groupPublicKeyBytes) == pkv(groupPublicKey) && len(preComputedKeys) <= i
+//@   loop 0 invariant preComputedKeys == nil || fresh(preComputedKeys)
 //@   loop 0 invariant keysWF(preComputedKeys) && (forall a {preComputedKeys[a]} :: 0 <= a && a < len(preComputedKeys) ==>
 //@        deviceChainKey.Counter < preComputedKeys[a].counter && preComputedKeys[a].counter <= deviceChainKey.Counter + i)
 //@   loop 0 invariant forall a, b {preComputedKeys[a], preComputedKeys[b]} :: 0 <= a && a < b && b < len(preComputedKeys) ==> preComputedKeys[a].counter < preComputedKeys[b].counter
